@@ -2766,7 +2766,7 @@ type AlterIndex struct {
 //	{{.NoSkipRange | sqlOpt}}
 type AlterSequence struct {
 	// pos = Alter
-	// end = (RestartCounterWith ?? NoSkipRange ?? SkipRange ?? Options ?? Name).end
+	// end = (NoSkipRange ?? SkipRange ?? RestartCounterWith ?? Options ?? Name).end
 
 	Alter token.Pos // position of "ALTER" keyword
 
